@@ -69,7 +69,8 @@ def protectLoop (less : Nat → Nat → Bool) (fuel : Nat) (a : Ix) (pivot x b :
     let x := scanUp (a.size + 1) (fun i => lt less a i pivot) x b
     if x ≥ b then (a, x, b) else protectLoop less fuel (sw a x (b - 1)) pivot (x + 1) (b - 1)
 
-def doPivot (less : Nat → Nat → Bool) (a : Ix) (lo hi : Nat) : Ix × Nat × Nat :=
+/-- median selection: ninther for large ranges, then median of three into position lo -/
+def choosePivot (less : Nat → Nat → Bool) (a : Ix) (lo hi : Nat) : Ix :=
   let m := (lo + hi) / 2
   let a := if hi - lo > 40 then
       let s := (hi - lo) / 8
@@ -77,24 +78,39 @@ def doPivot (less : Nat → Nat → Bool) (a : Ix) (lo hi : Nat) : Ix × Nat × 
       let a := medianOfThree less a m (m - s) (m + s)
       medianOfThree less a (hi - 1) (hi - 1 - s) (hi - 1 - 2 * s)
     else a
-  let a := medianOfThree less a lo m (hi - 1)
-  let pivot := lo
-  let x := scanUp (a.size + 1) (fun i => lt less a i pivot) (lo + 1) (hi - 1)
-  let (a, b, c) := pivotLoop less (a.size + 1) a pivot x (hi - 1)
-  let protect : Bool := decide (hi - c < 5)
-  let (a, b, c, protect) :=
-    if !protect && hi - c < (hi - lo) / 4 then
-      let dups := 0
-      let (a, c, dups) := if !lt less a pivot (hi - 1) then (sw a c (hi - 1), c + 1, dups + 1) else (a, c, dups)
-      let (b, dups) := if !lt less a (b - 1) pivot then (b - 1, dups + 1) else (b, dups)
-      let (a, b, dups) := if !lt less a m pivot then (sw a m (b - 1), b - 1, dups + 1) else (a, b, dups)
-      (a, b, c, decide (dups > 1))
-    else (a, b, c, protect)
-  let (a, b) := if protect then
-      let (a, _, b) := protectLoop less (a.size + 1) a pivot x b
-      (a, b)
-    else (a, b)
-  (sw a pivot (b - 1), b - 1, c)
+  medianOfThree less a lo m (hi - 1)
+
+structure PState where
+  a : Ix
+  b : Nat
+  c : Nat
+  protect : Bool
+
+/-- "Lets test some points for equality to pivot" -/
+def dups1 (less : Nat → Nat → Bool) (a : Ix) (lo hi c : Nat) : Ix × Nat × Nat :=
+  if !lt less a lo (hi - 1) then (sw a c (hi - 1), c + 1, 1) else (a, c, 0)
+def dups2 (less : Nat → Nat → Bool) (a : Ix) (lo b d : Nat) : Nat × Nat :=
+  if !lt less a (b - 1) lo then (b - 1, d + 1) else (b, d)
+def dups3 (less : Nat → Nat → Bool) (a : Ix) (lo m b d : Nat) : Ix × Nat × Nat :=
+  if !lt less a m lo then (sw a m (b - 1), b - 1, d + 1) else (a, b, d)
+
+def dupsBlock (less : Nat → Nat → Bool) (a : Ix) (lo hi m b c : Nat) : PState :=
+  let r1 := dups1 less a lo hi c
+  let r2 := dups2 less r1.1 lo b r1.2.2
+  let r3 := dups3 less r1.1 lo m r2.1 r2.2
+  ⟨r3.1, r3.2.1, r1.2.1, decide (r3.2.2 > 1)⟩
+
+def doPivot (less : Nat → Nat → Bool) (a : Ix) (lo hi : Nat) : Ix × Nat × Nat :=
+  let m := (lo + hi) / 2
+  let a1 := choosePivot less a lo hi
+  let x := scanUp (a1.size + 1) (fun i => lt less a1 i lo) (lo + 1) (hi - 1)
+  let r := pivotLoop less (a1.size + 1) a1 lo x (hi - 1)
+  let st : PState :=
+    if !(decide (hi - r.2.2 < 5)) && decide (hi - r.2.2 < (hi - lo) / 4) then dupsBlock less r.1 lo hi m r.2.1 r.2.2
+    else ⟨r.1, r.2.1, r.2.2, decide (hi - r.2.2 < 5)⟩
+  let p : Ix × Nat :=
+    if st.protect then (let q := protectLoop less (st.a.size + 1) st.a lo x st.b; (q.1, q.2.2)) else (st.a, st.b)
+  (sw p.1 lo (p.2 - 1), p.2 - 1, st.c)
 
 def maxDepth (n : Nat) : Nat := 2 * (if n = 0 then 0 else Nat.log2 n + 1)
 
